@@ -29,7 +29,7 @@ pub fn tier(name: &str) -> Tier {
     match name {
         "thorough" => Tier {
             name: "thorough",
-            runs: env_usize("VERIF_RUNS", 1_200_000),
+            runs: env_usize("VERIF_RUNS", 1_000_000),
             batch: 600,
             workers: cores,
             redo_batches: 40,
@@ -245,6 +245,14 @@ pub fn site_name(s: u32) -> &'static str {
         48 => "BACKREF_MATCH",
         49 => "FORCE_PROGRESS",
         50 => "ANALYZE_ZERO_LEN_GROUP",
+        51 => "OP_ATOM",
+        52 => "OP_CHARCLASS",
+        53 => "OP_BOL",
+        54 => "OP_EOL",
+        55 => "OP_END_PROGRAM",
+        56 => "CASE_BLIND",
+        57 => "CAPTURE_ENTER",
+        58 => "CHOICE_BRANCH",
         60 => "BLOCK_LOOKUP_CALL",
         61 => "BLOCK_TABLE_INIT",
         70 => "PARSE_CLASS",
@@ -257,7 +265,8 @@ pub fn site_name(s: u32) -> &'static str {
 /// Probes that must be non-zero in the thorough tier (DESIGN §3.11).
 const REQUIRED_PROBES: &[u32] = &[
     1, 2, 3, 4, 5, 6, 7, 10, 11, 12, 13, 14, 15, 16, 17, 18, 20, 21, 22, 23, 24, 25, 26, 27, 28,
-    29, 30, 31, 40, 41, 42, 43, 44, 45, 46, 47, 48, 49, 50, 60, 61, 70, 71, 72,
+    29, 30, 31, 40, 41, 42, 43, 44, 45, 46, 47, 48, 49, 50, 51, 52, 53, 54, 55, 56, 57, 58, 60, 61,
+    70, 71, 72,
 ];
 
 #[derive(Clone, Debug)]
